@@ -291,9 +291,34 @@ def is_symbolic_scalar(x):
     return isinstance(x, (SymBool, SymInt, SymName, SymVal, SymRef, MV))
 
 
+SELFEQ = z3.Function('selfeq', ValS, z3.BoolSort())    # x == x for a value (False for NaN-like objects)
+
+
+class _Flags:
+    nonreflexive = False     # when set, ASSUMPTION EQ is weakened: == on values need not be reflexive (C14 'x == x' units)
+
+
+def set_nonreflexive(v):
+    _Flags.nonreflexive = bool(v)
+
+
 def py_eq(a, b):
     """Python ``a == b`` on interpreter values; returns a host bool, forking through the context if needed."""
     if a is b:
+        if not _Flags.nonreflexive:
+            return True
+        # the expression ``x == x`` calls type(x).__eq__: no identity shortcut outside container comparisons
+        if isinstance(a, MV):
+            return _Cur.ctx.decide(z3.Or(z3.Not(a.has), SELFEQ(a.val)))
+        if isinstance(a, SymVal):
+            return _Cur.ctx.decide(SELFEQ(a.t))
+        m = getattr(a, '_vf_selfeq', None)
+        if m is not None:
+            return m()
+        if hasattr(a, '_vf_eq'):
+            r = a._vf_eq(b)
+            if r is not NotImplemented:
+                return r
         return True
     ta, tb = type(a), type(b)
     if ta is SymName or tb is SymName:
@@ -303,11 +328,17 @@ def py_eq(a, b):
         # ASSUMPTION NAMES: symbolic parameter names differ from every string literal of sigtools
         return False
     if isinstance(a, SymRef) or isinstance(b, SymRef):      # (subclasses: symbolic functions, objects, partials)
+        if hasattr(a, '_vf_value_eq'):
+            return a._vf_value_eq(b)         # an object whose class defines a value-based __eq__
+        if hasattr(b, '_vf_value_eq'):
+            return b._vf_value_eq(a)
         if isinstance(a, SymRef) and isinstance(b, SymRef):
             return _Cur.ctx.decide(a.t == b.t)
         return False
     if ta is SymVal or tb is SymVal:
         if ta is SymVal and tb is SymVal:
+            if _Flags.nonreflexive:
+                return _Cur.ctx.decide(z3.And(a.t == b.t, SELFEQ(a.t)))
             return _Cur.ctx.decide(a.t == b.t)
         if a is None or b is None:
             o = a if ta is SymVal else b
